@@ -301,7 +301,7 @@ func (rl *Shell) yankNthArg() {
 
 	// Abort if the required position is out of bounds.
 	argNth := rl.Iterations.Get()
-	if len(words) < argNth {
+	if argNth < 1 || len(words) < argNth {
 		return
 	}
 
